@@ -32,7 +32,8 @@ KNOWN_FINDINGS = VERIF / "known_findings.json"
 
 ALLOWED_AXIOMS = {"propext", "Classical.choice", "Quot.sound"}
 FORBIDDEN = re.compile(
-    r"\bsorry\b|\badmit\b|^\s*axiom\s|native_decide|bv_decide|implemented_by|\bunsafe\s|maxHeartbeats\s+0\b",
+    r"\bsorry\b|\badmit\b|^\s*axiom\s|native_decide|bv_decide|implemented_by|\bunsafe\s|maxHeartbeats\s+0\b"
+    r"|@\[\s*extern|skipKernelTC|\bofReduceBool\b|\bunsafeCast\b",
     re.M,
 )
 
@@ -109,9 +110,19 @@ class Driver:
             bufsize=1,
         )
 
+    TIMEOUT_S = 1800
+
     def call(self, req: dict) -> dict:
+        import select
+
         self.p.stdin.write(json.dumps(req, separators=(",", ":")) + "\n")
         self.p.stdin.flush()
+        # one request -> exactly one response line; wait for it with a time limit so that a hung
+        # driver cannot hang the check
+        r, _, _ = select.select([self.p.stdout], [], [], self.TIMEOUT_S)
+        if not r:
+            self.p.kill()
+            raise RuntimeError("model driver timed out on request %r" % (req.get("op"),))
         line = self.p.stdout.readline()
         if not line:
             raise RuntimeError("model driver died on request %r" % (req.get("op"),))
@@ -140,6 +151,30 @@ def run_cmd(cmd, cwd=None, timeout=3600):
     out = (r.stdout or "") + (r.stderr or "")
     out = "\n".join(l for l in out.splitlines() if "conda.cli.condarc" not in l)
     return r.returncode, out
+
+
+class lean_lock:
+    """Exclusive lock on the Lean project for the phases that write into it (regenerated model text,
+    `lake build`): two checks started at the same time in this directory serialise these phases
+    instead of reading each other's half-written files."""
+
+    def __enter__(self):
+        import fcntl
+
+        d = LEAN_DIR / ".lake"
+        d.mkdir(parents=True, exist_ok=True)
+        self.f = open(d / "check.lock", "w")
+        fcntl.flock(self.f, fcntl.LOCK_EX)
+        return self
+
+    def __exit__(self, *a):
+        import fcntl
+
+        try:
+            fcntl.flock(self.f, fcntl.LOCK_UN)
+        finally:
+            self.f.close()
+        return False
 
 
 def lake_build(targets):
@@ -173,8 +208,9 @@ def lean_sources():
     out = []
     for sub in ("SnowModel", "SnowProofs"):
         out += sorted((LEAN_DIR / sub).rglob("*.lean"))
-    out += [LEAN_DIR / "Driver.lean"]
-    return out
+    out += [LEAN_DIR / "Driver.lean", LEAN_DIR / "SnowModel.lean", LEAN_DIR / "SnowProofs.lean",
+            LEAN_DIR / "lakefile.toml"]
+    return [p for p in out if p.exists() or p.name == "Driver.lean"]
 
 
 def audit_theorems(module, theorems, tag: str):
@@ -286,9 +322,13 @@ def prune_cache():
         fp = repo_fingerprint()
         old = marker.read_text().strip() if marker.exists() else ""
         if old != fp:
+            now = time.time()
             for pat in ("*.json", "*.json.gz", "*.tmp*"):
                 for f in list(d.glob(pat)) + list(d.glob("*/" + pat)):
                     try:
+                        # temp files younger than two hours may belong to a check that is running now
+                        if ".tmp" in f.name and now - f.stat().st_mtime < 7200:
+                            continue
                         f.unlink()
                     except OSError:
                         pass
